@@ -62,6 +62,16 @@ def run(ctx):
             return None
         if d["error_num"] not in (0,) + SOFT:
             bad = reset_violation(d)
+            # the error string is part of the reply too: nothing from the credential in it (an unauthorized reply names the
+            # CLIENT's own ids and nothing else)
+            es = d["error_str"]
+            if d["error_num"] == 18:
+                if es != "Unauthorized credential for client UID=%d GID=%d" % (uid, gid):
+                    bad = list(bad) + ["error string %r (only the refused client's own ids, uid=%d gid=%d, belong there)" % (es, uid, gid)]
+            else:
+                for secret in ("1234", "5678", "protected interior", "for uid 77 only", "interior-data"):
+                    if secret in es:
+                        bad = list(bad) + ["error string %r contains %r from the credential" % (es, secret)]
             if bad:
                 fails.append({"why": "hard-error reply (error %d %r, class %s) discloses: %s" % (d["error_num"], d["error_str"], cls, ", ".join(bad)),
                               "cred_hex": cred[:2000].hex(), "uid": uid, "gid": gid, "retry": retry})
@@ -116,6 +126,17 @@ def run(ctx):
         if r2 and r2["error_num"] == 0:
             probe("unauthorized", r2["data"], uid=78, gid=1)
             probe("unauthorized-root", r2["data"], uid=0, gid=0)
+            # several reasons to fail at once: the client is not authorized AND the credential is outside its window / already
+            # decoded: the refusal (hard error, everything reset) comes first, whatever else is wrong
+            base_now = cr.now
+            for dt, what in ((4000, "expired"), (-4000, "rewound")):
+                cr.set_clock(base_now + dt)
+                probe("unauthorized+" + what, r2["data"], uid=78, gid=1)
+            cr.set_clock(base_now)
+            r3, _ = cr.encode_both(uid=1234, gid=5678, cipher=c, mac=mc, zip_=z, data=b"for uid 77 only", auth_uid=77)
+            if r3 and r3["error_num"] == 0:
+                probe("authorized-first", r3["data"], uid=77, gid=1, expect_hard=False)
+                probe("unauthorized+replayed", r3["data"], uid=78, gid=1)
         probe("retry6", cred, retry=6)
         probe("retry255", cred, retry=255)
         s = cred.rstrip(b"\0")
